@@ -28,21 +28,23 @@ func init() {
 // *NetworkRule taking a *NetworkRule that the badfilter filter calls.
 func twinTest(c *Ctx, filter *ssa.Function) *ssa.Function {
 	var out *ssa.Function
-	eachInstr(filter, func(_ *ssa.BasicBlock, in ssa.Instruction) {
-		ci, ok := in.(ssa.CallInstruction)
-		if !ok {
-			return
-		}
-		cal := ci.Common().StaticCallee()
-		if cal == nil || !c.P.IsLibFunc(cal) || cal.Signature.Recv() == nil {
-			return
-		}
-		sig := cal.Signature
-		if sig.Params().Len() == 1 && sig.Results().Len() == 1 && strings.HasSuffix(typeStr(sig.Params().At(0).Type()), "*rules.NetworkRule") &&
-			typeStr(sig.Results().At(0).Type()) == "bool" {
-			out = cal
-		}
-	})
+	for _, fn := range groupFuncs(c.P, filter) {
+		eachInstr(fn, func(_ *ssa.BasicBlock, in ssa.Instruction) {
+			ci, ok := in.(ssa.CallInstruction)
+			if !ok {
+				return
+			}
+			cal := ci.Common().StaticCallee()
+			if cal == nil || !c.P.IsLibFunc(cal) || cal.Signature.Recv() == nil || c.P.IsNewHelper(cal) {
+				return
+			}
+			sig := cal.Signature
+			if sig.Params().Len() == 1 && sig.Results().Len() == 1 && strings.HasSuffix(typeStr(sig.Params().At(0).Type()), "*rules.NetworkRule") &&
+				typeStr(sig.Results().At(0).Type()) == "bool" {
+				out = cal
+			}
+		})
+	}
 	return out
 }
 
@@ -296,6 +298,8 @@ func runC08(c *Ctx) {
 func checkBadfilterFilter(c *Ctx, filter, twin *ssa.Function, kBad int64) {
 	g := NewGate(c.P)
 	g.Inline = inlineOnly("(*rules.NetworkRule).IsOptionEnabled")
+	g.Search = true
+	g.Pure[FuncName(twin)] = true // a comparison of two rules; that it writes nothing is C13.R1
 	s := g.Eval(filter)
 	u := g.U
 	ps := g.ParamExprs(filter)
@@ -471,7 +475,9 @@ func checkBadfilterFilter(c *Ctx, filter, twin *ssa.Function, kBad int64) {
 			}
 			stale := ""
 			for _, at := range u.AtomsOf(rc) {
-				if u.Mentions(at, func(x *E) bool { return (x.Op == "loopphi" || x.Op == "loopval") && !idxPhis[x] && !u.Mentions(em.elem, func(y *E) bool { return y == x }) }) {
+				if u.Mentions(at, func(x *E) bool {
+					return (x.Op == "loopphi" || x.Op == "loopval") && !idxPhis[x] && !u.Mentions(em.elem, func(y *E) bool { return y == x })
+				}) {
 					// collection φ values are fine (the badfilter list); flags are not
 					if !u.Mentions(at, func(x *E) bool { return x.Op == "len" || x.Op == "index" }) {
 						stale = clip(u.Show(at), 100)
@@ -481,51 +487,55 @@ func checkBadfilterFilter(c *Ctx, filter, twin *ssa.Function, kBad int64) {
 			c.Check(stale == "", "C08.R1", key+": decided per candidate", em.call.Pos(), "the emission condition reads nothing carried over from earlier iterations",
 				"whether a candidate is kept depends on a value carried over from earlier candidates ("+stale+"), e.g. a 'negated' flag that is not reset: once one rule is disabled, every later rule is dropped too")
 		}
-		// the scan over the collection: twin-test calls with arg == candidate inside a loop nested in candLoop
+		// the scan over the collection, in canonical search form: the emission is reached only
+		// when no element of the collected badfilter rules negates the candidate
 		scanOK := false
-		for _, site := range callsTo(filter, twin) {
-			call := s.Env[site.(ssa.Value)]
-			if call == nil || len(call.Args) < 2 || call.Args[1] != em.elem {
+		collVals := map[*E]bool{}
+		for v := range collPhi {
+			if e := s.Env[v]; e != nil {
+				collVals[e] = true
+			}
+		}
+		for _, at := range u.AtomsOf(rc) {
+			if at.Op != "exists" {
 				continue
 			}
-			ls := innermostLoop(loops, site.Block())
-			if ls == nil || ls == candLoop || !candLoop.Blocks[ls.Header] {
+			pr := u.ToBool(at.Args[1])
+			pats := u.AtomsOf(pr)
+			if len(pats) != 1 || pats[0].Op != "call" || pats[0].Aux != calleeName(twin) || len(pats[0].Args) < 2 {
 				continue
 			}
-			ro := rangedOver(ls)
-			neg := u.ToBool(call)
-			_ = contCond
-			// receiver must be the element of the collection loop
-			recvOK := ro != nil && call.Args[0].Op == "index" && collPhi != nil && collPhi[ro.Coll] && call.Args[0].Args[0] == s.Env[ro.Coll]
-			// early exits only under neg
-			early := False
-			for _, ex := range ls.Exits {
-				if ex[0] == ls.Header {
-					continue
-				}
-				ec := edgeCondOf(u, s, ex[0], ex[1])
-				early = u.bdd.Or(early, ec)
+			call := pats[0]
+			if call.Args[1] != em.elem {
+				continue
 			}
-			c1 := u.bdd.Implies(early, neg)
-			// negating badfilter always leaves the scan
-			body := u.bdd.And(s.RC[site.Block()], neg)
-			c2 := u.bdd.Implies(body, early)
-			// emission unreachable from the early exit
-			c3 := u.bdd.And(rc, early) == False
-			full := ro != nil && ro.Full
-			if recvOK && c1 && c2 && c3 && full {
-				scanOK = true
+			recvOK := call.Args[0].Op == "bvar" && collVals[at.Args[0]]
+			pos := pr == u.Atom(call)
+			guarded := u.bdd.Implies(rc, u.bdd.Not(u.Atom(at)))
+			scanOK = true
+			if recvOK && pos && guarded {
 				c.OK("C08.R1", key+": no collected badfilter negates it", em.call.Pos(),
-					"scan of the whole collection nested in the candidate loop; leaves early exactly when the twin test holds; emission only after exhaustion")
+					"emission only when no element of the whole collection passes the twin test against the candidate (scan loop, helper or slices.ContainsFunc)")
 			} else {
-				c.Fail("C08.R1", key+": no collected badfilter negates it", site.Pos(),
-					fmt.Sprintf("the scan over the badfilter rules does not establish 'for all' (receiver is collection element=%v, full range=%v, early exit only when negated=%v, negated always exits=%v, emission unreachable after negation=%v)", recvOK, full, c1, c2, c3))
-				scanOK = true // reported
+				c.Fail("C08.R1", key+": no collected badfilter negates it", em.call.Pos(),
+					fmt.Sprintf("the scan over the badfilter rules does not establish 'for all' (scans the collected badfilter rules with the twin test's receiver=%v, leaves exactly when negated=%v, emission only when no rule negates=%v)", recvOK, pos, guarded))
 			}
 		}
 		if !scanOK {
-			c.Fail("C08.R1", key+": no collected badfilter negates it", em.call.Pos(),
-				"UNDECIDED: no scan of the collected badfilter rules testing this candidate is nested in the candidate loop (accepted shape: inner loop over the collection with flag/break or labelled continue)")
+			// a raw (non-canonical) scan: report what is there
+			raw := false
+			for _, at := range u.AtomsOf(rc) {
+				if at.Op == "call" && at.Aux == calleeName(twin) {
+					raw = true
+				}
+			}
+			if raw {
+				c.Fail("C08.R1", key+": no collected badfilter negates it", em.call.Pos(),
+					"the scan over the badfilter rules does not establish 'for all': it is not a complete scan of the collection that leaves exactly when the twin test holds (partial range, extra exit, side effects or state carried between iterations)")
+			} else {
+				c.Fail("C08.R1", key+": no collected badfilter negates it", em.call.Pos(),
+					"UNDECIDED: no scan of the collected badfilter rules testing this candidate guards the emission (accepted shapes: inner loop with flag/break or labelled continue, a helper, slices.ContainsFunc)")
+			}
 		}
 	}
 }
